@@ -214,6 +214,10 @@ where
         self.link_ops(&ops)?;
         let mut vm = VM::with_pointer(self.strict, ops, &self.working_dir);
         if let Some(path) = path {
+            // The file being built is itself in progress: importing it again
+            // from anything it imports is a cycle.
+            let normalized = crate::path::normalize(path.clone());
+            vm = vm.with_import_stack(vec![normalized.to_string_lossy().into()]);
             vm.set_path(path);
         }
         if self.validate_mode {
